@@ -20,7 +20,7 @@ RULE = ("e2e case = (protocol version, token/key (bytes or hex) / device id, dev
         "of the control body that arrived after V2 unwrap / V3 decrypt) equals the state assigned through A's public setters, and B's "
         "public attributes equal the device state. Concurrent case = 2..4 client instances issuing mixed apply/refresh against one device "
         "with random per-message latencies; every applied state embeds a unique version (fan, humidity) and every refresh must report a "
-        "version that was current at some instant between its call and its return (register interval check); the device may push an unsolicited report of every state change to the other open connections with its own latency, and bytes that catch up with delayed bytes arrive coalesced in one segment. Re-apply case = A applies X, a second controller changes the device to Y, A applies X again (with or without a refresh in between): the device must end in X. distinct = distinct case "
+        "version that was current at some instant between its call and its return (register interval check); the device may push an unsolicited report of every state change to the other open connections with its own latency, and bytes that catch up with delayed bytes arrive coalesced in one segment. Abandoned case = a refresh()/apply() given up by its caller (deadline 0.2-1.3 s) while the client reconnects, re-authenticates or waits for a slow reply; after another controller changed the device the same object's refresh() must report the device's state. Re-apply case = A applies X, a second controller changes the device to Y, A applies X again (with or without a refresh in between): the device must end in X. distinct = distinct case "
         "parameters; all non-trivial")
 ASSUMPTIONS = ["unsolicited frames never describe a stale state", "values outside the stated domains (e.g. 20.3 C, fan 200) are not generated",
                "oracle choices of C10/C11 for bit positions apply",
@@ -44,7 +44,8 @@ def _case(rng, st, version=None, seg=None, did=None):
             "seg": seg or rng.choice(SEGS), "before": rng.randint(0, 3) if rng.random() < 0.5 else 0,
             "after": rng.randint(0, 3) if rng.random() < 0.5 else 0, "sseed": rng.getrandbits(32),
             "report_length": rng.choice([23, 23, 24, 30]), "check": rng.choice(["crc", "sum"]),
-            "reauth": rng.choice([None, None, "before-apply", "after-apply", "both"])}
+            "reauth": rng.choice([None, None, "before-apply", "after-apply", "both"]),
+            "aliases": rng.random() < 0.2, "ints": rng.random() < 0.25}
 
 
 def generate(ctx, rng):
@@ -74,6 +75,13 @@ def generate(ctx, rng):
         yield ("conc", j), {"kind": "concurrent", "version": rng.choice([2, 3]), "nclients": rng.randint(2, 4),
                             "nops": rng.randint(6, 14), "cseed": rng.getrandbits(32), "unsolicited": rng.random() < 0.5,
                             "push": j % 3 != 0, "coalesce": j % 2 == 0}
+    # a refresh that its caller abandons (deadline) while the client is reconnecting, re-authenticating or waiting for the reply;
+    # afterwards the device changes and the same client object refreshes again
+    for j in range(60 if quick else 4000):
+        version = rng.choice([2, 3])
+        yield ("abandoned", j), {"kind": "abandoned", "version": version, "phase": rng.choice(["connect", "reply"] + (["handshake"] if version == 3 else [])),
+                                 "deadline": rng.choice([0.2, 0.5, 1.3]), "x": gen.random_state(rng), "y": gen.random_state(rng), "z": gen.random_state(rng),
+                                 "cseed": rng.getrandbits(32), "op": rng.choice(["refresh", "refresh", "apply"])}
     # the same state applied again after another controller changed the device in between (no refresh in between)
     for j in range(40 if quick else 3000):
         yield ("reapply", j), {"kind": "reapply", "version": rng.choice([2, 3]), "x": gen.random_state(rng), "y": gen.random_state(rng),
@@ -114,6 +122,8 @@ def run_case(ctx, case):
         return _concurrent(ctx, case)
     if case["kind"] == "reapply":
         return _reapply(ctx, case)
+    if case["kind"] == "abandoned":
+        return _abandoned(ctx, case)
     version = case["version"]
     token, key = bytes(case["token"]), bytes(case["key"])
     key_arg = key.hex() if case["key_form"] == "hex" else key
@@ -149,7 +159,7 @@ def run_case(ctx, case):
             await a.authenticate(tok_arg, key_arg)
         if version == 3 and case.get("reauth") in ("before-apply", "both"):
             await a.authenticate(tok_arg, key_arg)      # an application re-running its set-up on the live (quiescent) connection
-        gen.apply_to_ac(a, st)
+        gen.apply_to_ac(a, st, aliases=bool(case.get("aliases")), ints=bool(case.get("ints")))
         await a.apply()
         dev_after_apply = dict(model.state)
         n_controls = len(model.controls)
@@ -327,6 +337,70 @@ def _concurrent(ctx, case):
             ctx.violation("concurrent-apply-lost", f"client {idx} apply of version {val} never reached the device", case)
     ctx.count(key_, kind="concurrent-ok" if not bad else "concurrent-bad",
               sample={"version": version, "clients": case["nclients"], "ops": len(log), "state_changes": len(dev.version_log)})
+
+
+def _abandoned(ctx, case):
+    version = case["version"]
+    r = random.Random(case["cseed"])
+    token, key = r.randbytes(64), r.randbytes(32)
+    net = H.new_net()
+    model = ACModel({k: v for k, v in case["x"].items() if k in acstate.FIELDS})
+    dev = SimDevice(net, version=version, token=token, key=key, device_id=0xC01B, ac=model, seed=case["cseed"])
+    slow = {"on": False}
+    dev.on_exchange = lambda conn, req, packets, meta: ([(5.0, p) for p in packets] if slow["on"] else None)
+
+    async def go(loop):
+        a = AC(ip=dev.host, port=dev.port, device_id=dev.device_id)
+        b = AC(ip=dev.host, port=dev.port, device_id=dev.device_id)
+        if version == 3:
+            await a.authenticate(token, key)
+            await b.authenticate(token, key)
+        await a.refresh()
+        phase = case["phase"]
+        if phase in ("connect", "handshake"):
+            for c in dev.conns:
+                if not c.closed and c is not None:
+                    c.emit([(0, "fin")])
+            await asyncio.sleep(0.01)
+            if phase == "connect":
+                dev.connect_script = ["hang"]
+        else:
+            slow["on"] = True
+        if case["op"] == "apply":
+            gen.apply_to_ac(a, case["y"])
+        try:
+            await asyncio.wait_for(a.refresh() if case["op"] == "refresh" else a.apply(), case["deadline"])
+            first = "returned"
+        except (TimeoutError, asyncio.TimeoutError):
+            first = "abandoned"
+        slow["on"] = False
+        dev.connect_script = []
+        await asyncio.sleep(7.0)
+        # another controller changes the device; the first client looks again
+        gen.apply_to_ac(b, case["z"])
+        await b.apply()
+        await a.refresh()
+        return first, a.online, H.public_state(a), dict(model.state)
+
+    k = ("abandoned", version, case["phase"], case["deadline"], case["op"], case["cseed"])
+    try:
+        (first, online, got, d), loop = H.run_virtual(go, net)
+    except Exception as e:  # noqa: BLE001
+        ctx.count(k, kind="abandoned-raised")
+        ctx.violation(f"abandoned-raises/{type(e).__name__}", f"{type(e).__name__}: {e}", case)
+        return
+    rd = {}
+    for f in ("power", "mode", "target_temperature", "fan", "swing", "eco", "turbo", "sleep", "target_humidity"):
+        g = got[f]
+        g = int(g) if f in ("mode", "fan", "swing") and g is not None else g
+        if g != d[f]:
+            rd[f] = (d[f], g)
+    bad = (not online) or bool(rd)
+    ctx.count(k, kind="e2e-bad" if bad else "e2e-ok", sample={"version": version, "phase": case["phase"], "deadline": case["deadline"], "first": first})
+    ctx.bump("abandoned-operation:" + first)
+    if bad:
+        ctx.violation("refresh-after-abandoned-operation", f"after a {case['op']}() abandoned by its caller during {case['phase']} (V{version}), a later refresh() "
+                      f"reports online={online}, differences {rd}", case)
 
 
 def model_initial_fan():
